@@ -334,10 +334,104 @@ fn imm8_value_sweep(e: &mut EnumCtx) {
     }
 }
 
+/// (f) histories: a failing step renders the machine's history (trace, call stack) into its
+/// error, so whether it fails cleanly depends on what ran before. Every program of <= 4 items
+/// over returns, calls, jumps, pushes / pops and failing instructions, run for up to 10 steps
+/// on a stack of return addresses that lead from item to item.
+fn history_sweep(e: &mut EnumCtx) {
+    let items: [(&str, &[u8]); 12] = [
+        ("ret", &[0xC3]),
+        ("nop", &[0x90]),
+        ("(invalid 06)", &[0x06]),
+        ("int3", &[0xCC]),
+        ("push rax", &[0x50]),
+        ("pop rax", &[0x58]),
+        ("call +0", &[0xE8, 0, 0, 0, 0]),
+        ("jmp +0", &[0xEB, 0x00]),
+        ("call rax", &[0xFF, 0xD0]),
+        ("jmp rax", &[0xFF, 0xE0]),
+        ("ret 8", &[0xC2, 0x08, 0x00]),
+        ("mov rax,[rbx] (unmapped)", &[0x48, 0x8B, 0x03]),
+    ];
+    for len in 1..=4usize {
+        for idx in 0..items.len().pow(len as u32) {
+            if !e.next() {
+                continue;
+            }
+            let mut code: Vec<u8> = vec![];
+            let mut names: Vec<&str> = vec![];
+            let mut starts: Vec<u64> = vec![];
+            let mut r = idx;
+            for _ in 0..len {
+                starts.push(CODE_AT + code.len() as u64);
+                let (n, b) = items[r % items.len()];
+                r /= items.len();
+                code.extend_from_slice(b);
+                names.push(n);
+            }
+            e.describe("history", &names.join("; "));
+            let mut fp = crate::common::Fp::new();
+            fp.bytes(&code);
+            fp.u64(0x68697374);
+            e.state(fp.0);
+            let mut ax = match Axecutor::new(&code, CODE_AT, CODE_AT) {
+                Ok(a) => a,
+                Err(_) => continue,
+            };
+            // the j-th return continues with the j-th item (the slot a RET reads moves up by one
+            // with every return), later ones land on the last item
+            let back = *starts.last().unwrap();
+            let mut st = vec![0u8; 0x400];
+            for q in 0..0x80usize {
+                st[q * 8..q * 8 + 8].copy_from_slice(&back.to_le_bytes());
+            }
+            for (j, a) in starts.iter().enumerate() {
+                let o = 0x200 + 8 * j;
+                st[o..o + 8].copy_from_slice(&a.to_le_bytes());
+            }
+            ax.mem_init_area(STK, st).unwrap();
+            for k in 0..16 {
+                ax.reg_write_64(crate::emu::GPR64[k], back).unwrap();
+            }
+            ax.reg_write_64(SR::RBX, 0x10).unwrap();
+            ax.reg_write_64(SR::RSP, STK + 0x200).unwrap();
+            let mut oc = crate::common::Fp::new();
+            for step in 0..10 {
+                let out = crate::emu::step(&mut ax);
+                e.count("transitions", 1);
+                e.count("history_steps", 1);
+                oc.str(out.class());
+                match &out {
+                    StepOut::Ok(true) => {}
+                    StepOut::Ok(false) => break,
+                    StepOut::Err(_) => {
+                        // a failed step does not end the machine: go on from the next item (RIP
+                        // has advanced), the history keeps growing
+                    }
+                    StepOut::Panic(p) => {
+                        e.count("panic", 1);
+                        let key = format!("step|panic@{}", p.tag());
+                        let prog = names.join("; ");
+                        e.finding(
+                            &key,
+                            || format!("step {step} of the program [{prog}] (returns lead from item to item) panicked at {}: {}", p.loc, crate::emu::first_line(&p.msg)),
+                            || json!({"program": prog, "bytes": crate::common::hex(&code), "step": step}),
+                        );
+                        break;
+                    }
+                }
+            }
+            fp.u64(oc.0);
+            e.outcome(fp.0);
+        }
+    }
+}
+
 fn gen(thorough: bool) -> impl Fn(&mut EnumCtx) + Sync {
     move |e: &mut EnumCtx| {
         sys_sweep(e);
         imm8_value_sweep(e);
+        history_sweep(e);
         // (d) truncated code areas: every 1- and 2-byte prefix x 4 fillers x every cut 1..=14
         {
             let fillers: [[u8; 14]; 4] = [[0x00; 14], [0xFF; 14], [0x24, 0x25, 0x10, 0x20, 0x30, 0x40, 0x50, 0x60, 0x70, 0x80, 0x90, 0xA0, 0xB0, 0xC0], [0x90; 14]];
@@ -484,7 +578,7 @@ pub fn run(tier: Tier) -> i32 {
         run.findings.merge(f);
         run.cov("devlike_profile_run", summary);
     }
-    enum_evidence(&mut run, &out, "one case = a byte string used as code: (a) every 1- and 2-byte prefix x 4 fillers (thorough: every 3-byte prefix x 2 fillers), (b) legacy prefix menu x REX menu x every 1-byte and 0F-escaped opcode x every ModRM x SIB menu; each stepped in 6 (layout, register state) combinations (one of them with an execute-only code area): code only / code+data+stack with all registers pointing into mapped memory, code+data+stack with distinct filler and all flags set, and areas at both ends of the address space with all registers 0 / all registers 2^64-8, under catch_unwind, an allocation guard and a hang watchdog; FS/GS bases are part of the register state (0 / small / large enough to wrap); (c) the `syscall` instruction with the built-in brk/pipe/exit/arch_prctl handlers installed x 9 syscall numbers x (12 boundary values + the live pipe descriptors) x 12 x 12 argument values, on a fresh machine, on one where a pipe holding data and the heap exist, and on one where in addition the heap is the highest area below an area on the last page of the address space; (d) every 2-byte prefix x 4 fillers cut to every length 1..14 as the WHOLE code area (an instruction that runs past the end of the code), for two of the fillers also with another area directly behind the code (2 bytes executable / 16 bytes read-write / 16 bytes executable); (e) every register-direct instruction with an 8-bit immediate (1-byte and 0F-escaped opcodes, plain / 66 / REX.W / REX.B) x all 256 immediates x 8 values in every general-purpose register x flags clear / set; states = distinct 8-byte code prefixes; distinct_nontrivial = distinct (first 8 bytes, outcome class and RIP of the 5 runs)");
+    enum_evidence(&mut run, &out, "one case = a byte string used as code: (a) every 1- and 2-byte prefix x 4 fillers (thorough: every 3-byte prefix x 2 fillers), (b) legacy prefix menu x REX menu x every 1-byte and 0F-escaped opcode x every ModRM x SIB menu; each stepped in 6 (layout, register state) combinations (one of them with an execute-only code area): code only / code+data+stack with all registers pointing into mapped memory, code+data+stack with distinct filler and all flags set, and areas at both ends of the address space with all registers 0 / all registers 2^64-8, under catch_unwind, an allocation guard and a hang watchdog; FS/GS bases are part of the register state (0 / small / large enough to wrap); (c) the `syscall` instruction with the built-in brk/pipe/exit/arch_prctl handlers installed x 9 syscall numbers x (12 boundary values + the live pipe descriptors) x 12 x 12 argument values, on a fresh machine, on one where a pipe holding data and the heap exist, and on one where in addition the heap is the highest area below an area on the last page of the address space; (d) every 2-byte prefix x 4 fillers cut to every length 1..14 as the WHOLE code area (an instruction that runs past the end of the code), for two of the fillers also with another area directly behind the code (2 bytes executable / 16 bytes read-write / 16 bytes executable); (e) every register-direct instruction with an 8-bit immediate (1-byte and 0F-escaped opcodes, plain / 66 / REX.W / REX.B) x all 256 immediates x 8 values in every general-purpose register x flags clear / set; (f) every program of <= 4 items over {ret, nop, an invalid byte, int3, push, pop, call +0, jmp +0, call rax, jmp rax, ret 8, a faulting load} run for up to 10 steps on a stack full of return addresses (a failing step renders the history that precedes it); states = distinct 8-byte code prefixes; distinct_nontrivial = distinct (first 8 bytes, outcome class and RIP of the 5 runs)");
     run.guard("cases", out.cases >= 1_000_000 || out.capped, format!("{} byte strings", out.cases));
     let okc = out.counters.get("ok").cloned().unwrap_or(0);
     let errc = out.counters.get("err").cloned().unwrap_or(0);
